@@ -26,7 +26,19 @@ type vC16Rec struct {
 	I [2]uint8
 	vC16Emb16
 	hidden int
-	S string `ion:"s,symbol"`
+	S  string      `ion:"s,symbol"`
+	OP *int8       `ion:",omitempty"`
+	OI interface{} `ion:",omitempty"`
+}
+
+type VC16Base struct {
+	ID   int8
+	Name string
+}
+
+type vC16EmbPtr struct {
+	*VC16Base
+	Tag string
 }
 
 type vC16Emb16 struct {
@@ -47,7 +59,7 @@ func vC16Marshal(v interface{}, mode int) ([]byte, error) {
 		return MarshalText(v)
 	default:
 		// a fixed local symbol table that declares every field name of the table types
-		return MarshalBinaryLST(v, NewLocalSymbolTable(nil, []string{"A", "b", "C", "D", "E", "F", "G", "H", "I", "P", "s", "X", "y", "Dec", "Ts", "N", "PD", "k", "F32", "F64", "T", "M", "PS", "Sx", "Cl", "V", "a"}))
+		return MarshalBinaryLST(v, NewLocalSymbolTable(nil, []string{"A", "b", "C", "D", "E", "F", "G", "H", "I", "P", "s", "X", "y", "Dec", "Ts", "N", "PD", "k", "F32", "F64", "T", "M", "PS", "Sx", "Cl", "V", "a", "OP", "OI", "ID", "Name", "Tag"}))
 	}
 }
 
@@ -102,6 +114,20 @@ func H_C16_rt() {
 				in.G.Y = vC16Str(1)
 			}
 			in.E = vnondetBool()
+		case 3: // omitempty on pointer and interface fields
+			if vnondetBool() {
+				op := int8(vnondetU8()) // incl. a non-nil pointer to 0: omitempty drops nil pointers only
+				if mode == 1 {
+					vassume(op > -100 && op < 100)
+				}
+				in.OP = &op
+			}
+			switch vnondetInt(0, 2) {
+			case 1:
+				in.OI = vnondetBool()
+			case 2:
+				in.OI = ""
+			}
 		default: // nested struct, slice (nil / empty / filled), array
 			in.G.X = int16(vnondetU16())
 			if mode == 1 {
@@ -131,6 +157,17 @@ func H_C16_rt() {
 		vassert(err == nil, "what Marshal wrote unmarshals into the same type")
 		vassert(out.A == in.A && out.B == in.B && out.E == in.E && out.F == in.F && out.P == in.P && out.S == in.S, "scalar fields are equal")
 		vassert((out.C == nil) == (in.C == nil) && (in.C == nil || *out.C == *in.C), "pointer fields are equal")
+		vassert((out.OP == nil) == (in.OP == nil) && (in.OP == nil || *out.OP == *in.OP), "omitempty pointer fields are equal (a pointer to an empty value is not nil)")
+		switch x := in.OI.(type) {
+		case nil:
+			vassert(out.OI == nil, "a nil omitempty interface stays nil")
+		case bool:
+			y, ok := out.OI.(bool)
+			vassert(ok && y == x, "an omitempty interface holding a bool is equal")
+		case string:
+			y, ok := out.OI.(string)
+			vassert(ok && y == x, "an omitempty interface holding a string is equal")
+		}
 		vassert(vSameBytes(out.D, in.D), "byte slices are equal")
 		vassert(out.G == in.G, "nested structs are equal")
 		vassert(len(out.H) == len(in.H), "slices have equal length")
@@ -296,6 +333,25 @@ func H_C16_rt() {
 		vassert(out.V == in.V && len(out.A) == len(in.A), "value and number of annotations are equal")
 		for i := range in.A {
 			vassert(out.A[i].Text != nil && *out.A[i].Text == *in.A[i].Text, "annotations are equal")
+		}
+	case 6: // a struct that embeds a pointer to a struct
+		var in vC16EmbPtr
+		in.Tag = vC16Str(1)
+		if vnondetBool() {
+			in.VC16Base = &VC16Base{ID: int8(vnondetU8()), Name: "n"}
+			if mode == 1 {
+				vassume(in.ID > -100 && in.ID < 100)
+			}
+		}
+		bs, err := vC16Marshal(in, mode)
+		vassert(err == nil, "a struct with an embedded pointer marshals")
+		var out vC16EmbPtr
+		err = Unmarshal(bs, &out)
+		vassert(err == nil, "what Marshal wrote unmarshals into the same type")
+		vassert(out.Tag == in.Tag, "fields are equal")
+		vassert((out.VC16Base == nil) == (in.VC16Base == nil), "a nil embedded pointer stays nil, a non-nil one is allocated")
+		if in.VC16Base != nil {
+			vassert(out.ID == in.ID && out.Name == in.Name, "promoted fields of the embedded pointer are equal")
 		}
 	default: // big.Int
 		// concrete boundary values, symbolic choice (the integer codecs themselves are covered with symbolic values by C01/C13)
